@@ -1,9 +1,29 @@
 package worlds
 
-import "go.minekube.com/gate/pkg/edition/java/proto/packet"
+import (
+	"bytes"
+	"crypto/rand"
+	"crypto/rsa"
+	"crypto/sha1"
+	"crypto/x509"
+	"encoding/hex"
+	"encoding/pem"
+	"fmt"
+	"io"
+	"math/big"
+	"net"
+	"net/http"
+	"strings"
+	"sync"
+	"time"
 
-// onlineCreds scripts how the client answers an EncryptionRequest (online mode). Filled in
-// by the C08/C09 scenarios.
+	"go.minekube.com/gate/pkg/edition/java/auth"
+	"go.minekube.com/gate/pkg/edition/java/proto/packet"
+	"go.minekube.com/gate/pkg/zzverif/mcpeer"
+	"go.minekube.com/gate/pkg/zzverif/simrt"
+)
+
+// onlineCreds scripts how the client answers an EncryptionRequest (online mode).
 type onlineCreds struct {
 	Respond func(c *clientModel, req *packet.EncryptionRequest)
 }
@@ -12,4 +32,217 @@ func (o *onlineCreds) respond(c *clientModel, req *packet.EncryptionRequest) {
 	if o.Respond != nil {
 		o.Respond(c, req)
 	}
+}
+
+var (
+	proxyKeyOnce sync.Once
+	proxyKey     *rsa.PrivateKey
+	otherKey     *rsa.PrivateKey
+)
+
+// proxyRSAKey returns a per-process key pair for the proxy (generation is expensive).
+func proxyRSAKey() (*rsa.PrivateKey, *rsa.PrivateKey) {
+	proxyKeyOnce.Do(func() {
+		parse := func(s string) *rsa.PrivateKey {
+			b, _ := pem.Decode([]byte(s))
+			k, err := x509.ParsePKCS1PrivateKey(b.Bytes)
+			if err != nil {
+				panic(err)
+			}
+			return k
+		}
+		proxyKey, otherKey = parse(testKey0), parse(testKey1)
+	})
+	return proxyKey, otherKey
+}
+
+// javaDigest is the harness's own implementation of the vanilla server-id hash:
+// new BigInteger(sha1(serverId + secret + publicKey)).toString(16) with Java's signed
+// two's-complement interpretation.
+func javaDigest(secret, publicKey []byte) string {
+	h := sha1.New()
+	h.Write(secret)
+	h.Write(publicKey)
+	sum := h.Sum(nil)
+	n := new(big.Int).SetBytes(sum)
+	if sum[0]&0x80 != 0 {
+		// negative in two's complement: value - 2^160
+		n.Sub(n, new(big.Int).Lsh(big.NewInt(1), 160))
+	}
+	return n.Text(16) // big.Int.Text renders "-abc" for negatives, no leading zeros: same as Java
+}
+
+// sessionServer is the Mojang session-server model (an http.RoundTripper).
+type sessionServer struct {
+	w         *classicWorld
+	announced map[string]string // serverId|lower(username) -> undashed uuid
+	Queries   []sessionQuery
+	Mode      func(n int) string // outcome for the n-th query: "", "204", "401", "500", "error", "hang", "slow"
+}
+
+type sessionQuery struct {
+	Seq      int
+	ServerID string
+	Username string
+	IP       string
+	Outcome  string
+}
+
+func (s *sessionServer) announce(serverID, username string, id [16]byte) {
+	s.announced[serverID+"|"+username] = hex.EncodeToString(id[:])
+}
+
+type bodyReader struct{ *bytes.Reader }
+
+func (bodyReader) Close() error { return nil }
+
+func (s *sessionServer) RoundTrip(req *http.Request) (*http.Response, error) {
+	q := req.URL.Query()
+	rec := sessionQuery{Seq: s.w.nextSeq(), ServerID: q.Get("serverId"), Username: q.Get("username"), IP: q.Get("ip")}
+	mode := ""
+	if s.Mode != nil {
+		mode = s.Mode(len(s.Queries))
+	}
+	mk := func(code int, body string) *http.Response {
+		return &http.Response{StatusCode: code, Status: fmt.Sprint(code), Proto: "HTTP/1.1", ProtoMajor: 1, ProtoMinor: 1,
+			Header: http.Header{}, Body: bodyReader{bytes.NewReader([]byte(body))}, ContentLength: int64(len(body)), Request: req}
+	}
+	finish := func(outcome string, resp *http.Response, err error) (*http.Response, error) {
+		rec.Outcome = outcome
+		s.Queries = append(s.Queries, rec)
+		return resp, err
+	}
+	switch mode {
+	case "hang":
+		s.w.r.Fault("session_server_hang")
+		<-req.Context().Done()
+		simrt.Resumed("session.hang")
+		return finish("hang", nil, req.Context().Err())
+	case "error":
+		s.w.r.Fault("session_server_transport_error")
+		return finish("error", nil, &net.OpError{Op: "dial", Net: "tcp", Err: io.ErrUnexpectedEOF})
+	case "500":
+		s.w.r.Fault("session_server_5xx")
+		return finish("500", mk(500, "oops"), nil)
+	case "401":
+		s.w.r.Fault("session_server_401")
+		return finish("401", mk(401, ""), nil)
+	case "204":
+		s.w.r.Fault("session_server_204")
+		return finish("204", mk(204, ""), nil)
+	case "slow":
+		s.w.r.Fault("session_server_slow")
+		simrt.Sleep(time.Duration(1+s.w.r.F.Pick(3000))*time.Millisecond, "session.slow")
+		if req.Context().Err() != nil {
+			return finish("slow-cancelled", nil, req.Context().Err())
+		}
+	}
+	id, ok := s.announced[rec.ServerID+"|"+rec.Username]
+	if !ok {
+		return finish("204-unknown", mk(204, ""), nil)
+	}
+	body := fmt.Sprintf(`{"id":"%s","name":"%s","properties":[{"name":"textures","value":"dGV4","signature":"c2ln"}]}`, id, rec.Username)
+	return finish("200", mk(200, body), nil)
+}
+
+// newOnlineAuthenticator builds the real auth.Authenticator wired to the model.
+func newOnlineAuthenticator(ss *sessionServer) (auth.Authenticator, error) {
+	key, _ := proxyRSAKey()
+	return auth.New(auth.Options{PrivateKey: key, Client: &http.Client{Transport: ss}})
+}
+
+// cryptConn wraps a net.Conn with the harness's own AES/CFB8 (independent of Gate's).
+type cryptConn struct {
+	net.Conn
+	enc, dec *mcpeer.CFB8
+}
+
+func (c *cryptConn) Read(p []byte) (int, error) {
+	n, err := c.Conn.Read(p)
+	if n > 0 && c.dec != nil {
+		c.dec.XORKeyStream(p[:n], p[:n])
+	}
+	return n, err
+}
+
+func (c *cryptConn) Write(p []byte) (int, error) {
+	if c.enc == nil {
+		return c.Conn.Write(p)
+	}
+	q := make([]byte, len(p))
+	c.enc.XORKeyStream(q, p)
+	return c.Conn.Write(q)
+}
+
+// onlineBehaviour describes what an online-mode client does with the EncryptionRequest.
+type onlineBehaviour struct {
+	Secret        []byte
+	ForgeToken    bool   // encrypt a different verify token
+	WrongKey      bool   // encrypt with a key that is not the proxy's
+	BadSecretLen  bool   // 15-byte secret
+	SkipJoin      bool   // do not announce to the session server (unauthenticated client)
+	AnnounceAs    string // announce under this username instead of the login name
+	ServerIDSeen  string
+	Responded     bool
+}
+
+// installOnline makes c behave as an online-mode client. It needs c.conn to be wrapped,
+// which Connect does when c.crypt is set.
+func installOnline(c *clientModel, ss *sessionServer, ob *onlineBehaviour) {
+	c.Online = &onlineCreds{Respond: func(c *clientModel, req *packet.EncryptionRequest) {
+		pubAny, err := x509.ParsePKIXPublicKey(req.PublicKey)
+		if err != nil {
+			c.Err = fmt.Errorf("client cannot parse the proxy's public key: %w", err)
+			return
+		}
+		pub := pubAny.(*rsa.PublicKey)
+		if ob.WrongKey {
+			_, other := proxyRSAKey()
+			pub = &other.PublicKey
+		}
+		secret := ob.Secret
+		if ob.BadSecretLen {
+			secret = secret[:15]
+		}
+		token := req.VerifyToken
+		if ob.ForgeToken {
+			token = append([]byte{}, token...)
+			token[0] ^= 0x55
+		}
+		serverID := javaDigest(secret, req.PublicKey)
+		ob.ServerIDSeen = serverID
+		if !ob.SkipJoin {
+			name := c.Name
+			if ob.AnnounceAs != "" {
+				name = ob.AnnounceAs
+			}
+			ss.announce(serverID, name, onlineUUID(name))
+		}
+		encSecret, _ := rsa.EncryptPKCS1v15(rand.Reader, pub, secret)
+		encToken, _ := rsa.EncryptPKCS1v15(rand.Reader, pub, token)
+		ob.Responded = true
+		if c.send(&packet.EncryptionResponse{SharedSecret: encSecret, VerifyToken: encToken}) != nil {
+			return
+		}
+		// vanilla enables the cipher right after sending the response
+		if len(secret) == 16 {
+			c.crypt.enc, _ = mcpeer.NewCFB8(secret, false)
+			c.crypt.dec, _ = mcpeer.NewCFB8(secret, true)
+		}
+	}}
+}
+
+// onlineUUID is the identity the session-server model hands out for a name.
+func onlineUUID(name string) [16]byte {
+	h := sha1.Sum([]byte("online:" + strings.ToLower(name)))
+	var u [16]byte
+	copy(u[:], h[:16])
+	u[6] = u[6]&0x0f | 0x40
+	u[8] = u[8]&0x3f | 0x80
+	return u
+}
+
+func pubKeyDER(k *rsa.PrivateKey) []byte {
+	b, _ := x509.MarshalPKIXPublicKey(&k.PublicKey)
+	return b
 }
